@@ -299,6 +299,12 @@ pub proof fn ax_pow_mod_range(b: int, e: int, n: int)
     ensures 0 <= pow_mod(b, e, n) < n,
 { admit(); }
 
+/// gcd depends on the residue only
+pub proof fn ax_gcd_mod(a: int, n: int)
+    requires n > 0,
+    ensures igcd(a % n, n) == igcd(a, n),
+{ admit(); }
+
 /// a product of units is a unit
 pub proof fn ax_gcd_mul(a: int, b: int, n: int)
     requires igcd(a, n) == 1, igcd(b, n) == 1,
